@@ -241,6 +241,26 @@ def blockEquivL (x y : List ALine) : Bool := blocks x == blocks y
 def linesOf (d : Dev) (n : Name) : List ALine := (entriesOf d n).map (·.2)
 
 
+/-- The blocks of an ACL: remark lines dropped, maximal runs of equal action, each run as the list of
+its lines modulo `log`, in order. -/
+def blockList : List ALine → List (Act × List String)
+  | [] => []
+  | l :: ls =>
+    if l.act == .remark then blockList ls else
+    match blockList ls with
+    | (a, ks) :: rest => if a == l.act then (a, l.nolog :: ks) :: rest else (l.act, [l.nolog]) :: (a, ks) :: rest
+    | [] => [(l.act, [l.nolog])]
+
+/-- Same sequence of actions, and block by block the same lines up to order. -/
+inductive BlocksPerm : List (Act × List String) → List (Act × List String) → Prop
+  | nil : BlocksPerm [] []
+  | cons (a : Act) {ks ks' : List String} {r r' : List (Act × List String)} :
+      ks.Perm ks' → BlocksPerm r r' → BlocksPerm ((a, ks) :: r) ((a, ks') :: r')
+
+/-- Two ACLs filter identically whatever the lines mean: they differ only in the order of the lines
+inside runs of equal action, in the `log` attribute, and in remark lines. -/
+def BlockEquivA (x y : List ALine) : Prop := BlocksPerm (blockList x) (blockList y)
+
 /-- The device state as a configuration to compare again (route-free examples: routes carry no
 parsed destination here). -/
 def toConfig (d : Dev) : Config :=
